@@ -210,11 +210,18 @@ def run(smoke=False):
         n2, f2 = repo_literals()
         n += n2
         fails += f2
-    res = {"cases": n, "failures": fails, "specs": len(SPECS), "alias_tests": len(ALIAS), "seconds": round(time.time() - t0, 2), "smoke": smoke,
+    # soundness of the axiom instances the solver is given
+    from conformance import axioms
+
+    n_ax, f_ax = axioms.run(n_rounds=8 if smoke else 60)
+    fails += ["axiom instance false on real functions: " + x for x in f_ax]
+    with facades.patched():
+        pass
+    res = {"cases": n, "axiom_instances_evaluated": n_ax, "failures": fails, "specs": len(SPECS), "alias_tests": len(ALIAS), "seconds": round(time.time() - t0, 2), "smoke": smoke,
            "torch": torch.__version__}
     with open(os.path.join(ROOT, "conformance", "result.json"), "w") as fh:
         json.dump(res, fh, indent=1)
-    print("conformance: %d cases, %d failures (%.1fs)" % (n, len(fails), res["seconds"]))
+    print("conformance: %d cases, %d axiom instances, %d failures (%.1fs)" % (n, n_ax, len(fails), res["seconds"]))
     for x in fails[:20]:
         print("  FAIL", x[:300])
     return 0 if not fails else 1
